@@ -146,8 +146,21 @@ impl<'a> LTr<'a> {
                 _ => Err("unary operator".into()),
             },
             Expr::Cast(c) => {
-                let (v, _) = self.expr(&c.expr)?;
                 let t = lty(&c.ty, &[], None, self.reg, self.lreg);
+                if t == LTy::Ext("Rs.AesDyn.Cipher".into()) {
+                    // `Box::new(x) as Box<dyn AesCipher>`: the implementor's value as a member of the trait object type
+                    return match &*c.expr {
+                        Expr::Call(b) if b.args.len() == 1 && matches!(&*b.func, Expr::Path(p) if path_segs(&p.path) == ["Box", "new"]) => {
+                            let (v, vt) = self.expr(&b.args[0])?;
+                            if !matches!(&vt, LTy::Adt(n, _) if n == "AesCtrZipKeyStream") {
+                                return Err("boxed value that is not a key stream".into());
+                            }
+                            Ok((format!("(Rs.AesBox.box {v})"), t))
+                        }
+                        _ => Err("cast to a trait object of something other than `Box::new(..)`".into()),
+                    };
+                }
+                let (v, _) = self.expr(&c.expr)?;
                 match &t {
                     LTy::Int(n) => Ok((format!("(Rs.as' {n} {v})"), t.clone())),
                     _ => Err("cast target".into()),
@@ -671,6 +684,9 @@ impl<'a> LTr<'a> {
             _ => return Err("call of a non-path".into()),
         };
         let args: Vec<&Expr> = c.args.iter().collect();
+        if let Some(r) = self.kind_calls(c, &segs, &args)? {
+            return Ok(r);
+        }
         let last = segs.last().cloned().unwrap_or_default();
         if segs.len() == 1 {
             if let Some((lean, ret, partial)) = ext_free(&last) {
